@@ -263,7 +263,8 @@ let run_push () =
   let db = times np (fun () -> let n = bytes_of_ints (hexbytes ()) in let d = bytes_of_ints (hexbytes ()) in (n, d)) in
   let cfg = { c_fuzz = nat_of_int fuzz; c_backup = backup; c_backup_count = count; c_dry_run = dry;
               c_default_mode = n_of_int dm; c_preload = preload } in
-  let fs = { fs_files = files; fs_dirs = dirs; fs_log = [] } in
+  let fault = (let v = dryw lsr 2 in if v = 0 then None else Some (nat_of_int (v - 1))) in
+  let fs = { fs_files = files; fs_dirs = dirs; fs_log = []; fs_fault = fault; fs_fired = false } in
   let (fs', r) = cmd_push cfg db goal fs in
   let ops = String.concat "," (List.map (fun op ->
       let path p = if p = [] then "-" else String.concat "/" (List.map hexb p) in
@@ -272,7 +273,7 @@ let run_push () =
       | OpCreate (p, ex) -> (if ex then "T:" else "C:") ^ path p
       | OpMkdir p -> "M:" ^ path p
       | OpRmdir p -> "R:" ^ path p) fs'.fs_log) in
-  let trace = " || OPS " ^ ops in
+  let trace = " || OPS " ^ ops ^ (if fs'.fs_fired then " || FIRED" else "") in
   match r with
   | ROk ok -> Printf.sprintf "EXIT %d | %s%s" (if ok then 0 else 1) (show_fs fs') trace
   | RErr e -> Printf.sprintf "EXIT 1 ERR %s | %s%s" (rerr_name e) (show_fs fs') trace
